@@ -108,7 +108,7 @@ class C10(Prop):
             "sub-collections at any level, names with underscores/dashes/leading-trailing underscores, auto-dash "
             "on/off per collection, sub-collections and roots that are the explicit `ns` of a module re-imported via "
             "Collection.from_module / add_collection(module) with either auto-dash setting, 15% trees with colliding "
-            "bindings) x four views: candidate tokens (every "
+            "bindings; half of the trees built in attach-then-populate order with read-only queries in between) x four views: candidate tokens (every "
             "resolvable dotted name, its _/- spelling variants, junk) through `in`, [], Parser(to_contexts()) and "
             "Program.run; --list in flat, nested and json format parsed back; non-trivial = a view of a tree with "
             ">=1 sub-collection holding a task; distinct by (script, view, names)")
@@ -187,7 +187,10 @@ class C10(Prop):
                 # the root is the explicit namespace of a module re-imported by from_module
                 # (what Program.load_collection does, with tasks.auto_dash_names from the config)
                 spec = ns.wrap_module(rng, dict(spec, name=rng.choice([None, "root_ns"])))
+            seed = rng.randrange(1 << 30) if rng.random() < 0.5 else None
             for c in self._cases_for(rng, spec):
+                if seed is not None:
+                    c = dict(c, build_seed=seed)
                 yield c
                 out += 1
                 if out >= n:
@@ -227,7 +230,8 @@ class C10(Prop):
         from invoke import Program
         from invoke.parser import Parser
         log = []
-        b = ns.Builder(on_call=lambda tid, c, a, k: log.append(tid), sigs=_Sigs())
+        b = ns.Builder(on_call=lambda tid, c, a, k: log.append(tid), sigs=_Sigs(),
+                       build_seed=case.get("build_seed"))
         coll, st = ns.build_and_dump(case["script"], b)
         obs = {"state": st, "nobs": [], "rows": {"err": "NotApplicable"}}
         if coll is None:
